@@ -99,6 +99,27 @@ def run(ctx: Ctx) -> None:
             detail = f"superclass received {[a[0] for a, _ in rec]}, returns {[o.value for o in outs]}"
             ctx.check(ok and fwd and ret_ok, "K1", f"{m}({label})", repo.loc("ordereddict", meths[m]), detail, f"{m}: key reaching OrderedDict is not _k(key), or result/extra arguments not forwarded: {detail}")
 
+    # a stored value of None (or any other falsy value) is a value: reading it returns it, nothing is created
+    for stored, label in ((None, "None"), (0, "0"), ("", "''"), (False, "False")):
+        missing_calls: list = []
+
+        def stub_lookup(fr, self_obj, args, kwargs, stored=stored):
+            return stored
+
+        def stub_missing(I_, self_obj, args, kwargs):
+            missing_calls.append(list(args))
+            return SOpaque("object", "auto-created")
+
+        stubs = {f"ext:OrderedDict.{x}": stub_lookup for x in ("__getitem__", "get", "setdefault", "pop")}
+        stubs["ext:OrderedDict.__contains__"] = lambda fr, so, a, k: True
+        stubs[f"{DD}.__missing__"] = stub_missing
+        I7 = e.interp(stubs=stubs, allow_fork=False)
+        inst = pai.Inst(CI)
+        inst.attrs["default_factory"] = SOpaque("object", "factory")
+        outs = I7.explore(f"{CI}.__getitem__", lambda: (inst, [SStr.atom("K")], {}))
+        good = len(outs) == 1 and outs[0].kind == "return" and outs[0].value is stored and not missing_calls
+        ctx.check(good, "K1", f"__getitem__ of a key whose stored value is {label}", repo.loc("ordereddict", meths["__getitem__"]), "returned as stored", f"reading a key whose stored value is {label} gives {[(o.kind, o.value, o.exc) for o in outs]} and calls __missing__ {len(missing_calls)} time(s): a present key is treated as absent (the value is replaced by an auto-created one, or KeyError is raised)")
+
     # optional arguments are forwarded exactly as given: none given -> none passed on (pop(key) of an
     # absent key must raise, so no default may be invented), one given -> that one
     for m in ("pop", "get", "setdefault"):
